@@ -10,7 +10,7 @@ use std::time::Duration;
 
 use axum::http::Method;
 use proptest::prelude::*;
-use rip_kernel::Event;
+use rip_kernel::{Event, EventKind};
 use ripd::{
     CompactionCutPointsV1Request, CompactionStatusV1Request, ContextSelectionStatusV1Request,
     ProviderCursorStatusV1Request,
@@ -61,6 +61,11 @@ enum Step {
     Op(Op),
     Read(ReadOp),
     Fault(Fault),
+    /// the authority dies mid-append and is restarted: another stream first writes `noise_kb` KiB of
+    /// whole frames (so the log can be longer than any scan chunk), then the file gets the body of
+    /// a frame without its newline (torn 0) or the first part of one (torn 1), then the log and the
+    /// store are reopened. Everything that was a whole frame before must still be an exact prefix.
+    TornRestart { noise_kb: u16, torn: u8 },
 }
 
 #[derive(Debug, Clone, Serialize, Deserialize)]
@@ -114,8 +119,10 @@ fn case_strategy(max_len: usize) -> BoxedStrategy<Case> {
         ops_strategy(w, max_len),
         proptest::collection::vec((any::<u16>(), read_strategy()), 0..max_len),
         proptest::collection::vec((any::<u16>(), fault::fault_strategy()), 0..4),
+        // 1 case in 12 has a torn restart (the big noise makes those cases slower)
+        proptest::option::weighted(0.08, (any::<u16>(), prop_oneof![2 => Just(0u16), 2 => 1u16..60, 3 => 70u16..260], 0u8..2)),
     )
-        .prop_map(|(ops, reads, faults)| {
+        .prop_map(|(ops, reads, faults, torn)| {
             // interleave: each read / fault is inserted after position pick(pos, len)
             let mut steps: Vec<Step> = ops.into_iter().map(Step::Op).collect();
             let mut inserts: Vec<(usize, Step)> = Vec::new();
@@ -125,6 +132,9 @@ fn case_strategy(max_len: usize) -> BoxedStrategy<Case> {
             }
             for (pos, f) in faults {
                 inserts.push((pick(pos, n) + 1, Step::Fault(f)));
+            }
+            if let Some((pos, noise_kb, torn)) = torn {
+                inserts.push((pick(pos, n) + 1, Step::TornRestart { noise_kb, torn }));
             }
             inserts.sort_by_key(|(p, _)| *p);
             for (p, s) in inserts.into_iter().rev() {
@@ -245,6 +255,44 @@ fn run(case: &Case) -> CaseReport {
                     checkpoints += 1;
                 }
                 versions.record(&it.sandbox.streams_dir());
+            }
+            Step::TornRestart { noise_kb, torn } => {
+                use std::io::Write;
+                // other streams' whole frames first
+                let sid = format!("noise-{i}");
+                let mut seq = 0u64;
+                let mut left = *noise_kb as usize * 1024;
+                while left > 0 {
+                    let n = left.min(16 * 1024);
+                    let ev = Event { id: format!("{sid}-{seq}"), session_id: sid.clone(), timestamp_ms: 0, seq, kind: EventKind::OutputTextDelta { delta: "n".repeat(n) } };
+                    let _ = it.live.log.append(&ev);
+                    seq += 1;
+                    left -= n;
+                }
+                let acked = it.sandbox.log_bytes();
+                check_delta(&before, &acked, Expect::Frames, "noise_frames", i, &mut rep);
+                // the dying append: a frame larger than the writer buffer reaches the file without
+                // its newline, or only in part
+                let ev = Event { id: format!("{sid}-torn"), session_id: sid.clone(), timestamp_ms: 0, seq, kind: EventKind::OutputTextDelta { delta: "t".repeat(9000) } };
+                let body = serde_json::to_vec(&ev).unwrap_or_default();
+                let part: &[u8] = if *torn == 0 { &body } else { &body[..body.len() / 2] };
+                if let Ok(mut f) = std::fs::OpenOptions::new().append(true).open(it.sandbox.log_path()) {
+                    let _ = f.write_all(part);
+                }
+                if let Err(p) = catch(|| it.restart()) {
+                    rep.fail("panic|restart_after_torn_append", json!({"step": i, "panic": p}));
+                    return rep;
+                }
+                let after = it.sandbox.log_bytes();
+                rep.class(if acked.len() > 64 * 1024 { "torn_restart:log>64KiB" } else { "torn_restart:log<=64KiB" });
+                // every whole frame that was there is still an exact prefix; what follows is whole
+                // frames again (the torn one completed, or nothing)
+                check_delta(&acked, &after, Expect::Frames, if *torn == 0 { "restart_after_body_without_newline" } else { "restart_after_partial_frame" }, i, &mut rep);
+                // and the next append continues from there
+                let _ = catch(|| it.apply(&Op::Msg { t: 0, actor: 0, content: "after the torn restart".into() }));
+                let later = it.sandbox.log_bytes();
+                check_delta(&after, &later, Expect::Frames, "append_after_torn_restart", i, &mut rep);
+                faulted = true;
             }
             Step::Fault(f) => {
                 if let Some(a) = fault::apply(&it.sandbox.streams_dir(), f, &versions) {
